@@ -20,6 +20,22 @@ CHECKS = {
    technique="deterministic simulation: seeded fragmentation schedules of the io.Reader (SimReader) + buffer-capacity knob, oracle = single-read run and the document's denotation",
    text="Seeded exploration: rapid draws document, configuration, read plan (one-byte/constant/random/boundary-targeted cuts, EOF style) and scan-buffer capacity; every run is compared with the single-read run (schedule independence), with the cells the generator rendered (faithfulness) and against a Read-call budget (bounded liveness). Sampling, not proof: the schedule space is exponential in document length; boundary-targeted plans and the 1..64 byte buffer knob aim the samples at the refill/realloc/compaction paths.",
    note="Trusted: SimReader obeys the io.Reader contract; the denotation oracle uses strconv.Atoi/ParseFloat/ParseBool as the documented definition of type inference; documents are restricted to the unambiguous well-formed space (no CR in cells). rapid v1.3.0 is the only choice source; replay = rapid fail file."),
+ "C13": dict(engine="roundtrip", level="exploration", design="§3 C13",
+   technique="deterministic simulation: writer and reader as two scheduled tasks over a bounded simulated pipe; read-your-writes oracle cell by cell",
+   text="Seeded exploration of frames x writer/reader options x interleavings of ToCSV and ReadCSV over a bounded SimPipe (pipe capacity 1 byte .. 1 MiB, PCT or random-walk schedule): the frame read back must equal the observation of the source frame cell by cell (floats by bit pattern, NaN preserved, null<->empty per EmptyNull), and both tasks must finish (no deadlock). This is the fault-free oracle of the CSV I/O path; the fault-injecting configuration is C15.",
+   note="Trusted: obs (typed views) as ground truth of a frame; generator restricted to what the property states (no CR). The scheduler contributes the chunking; the frame is what the seed mostly explores (stated in evidence as chunk/interleaving probes)."),
+ "C14": dict(engine="roundtrip", level="exploration", design="§3 C14",
+   technique="deterministic simulation: ToJSON -> simulated pipe -> ReadJSON under a seeded schedule; oracle = independent parser (encoding/json token stream) + read-your-writes",
+   text="Seeded exploration of frames with names and strings over arbitrary bytes and floats over all finite values: the bytes ToJSON wrote must be valid JSON whose token stream is one object per row in row order with keys in column order and values equal to the cells (ints exactly, floats bit-identical after ParseFloat, NaN/null as null); ReadJSON of the same stream must reproduce the frame where the property says it does.",
+   note="Trusted: encoding/json as the independent parser; 'properly escaped invalid UTF-8' is taken to mean U+FFFD per invalid byte (what encoding/json itself does)."),
+ "C19": dict(engine="roundtrip", level="exploration", design="§3 C19",
+   technique="deterministic simulation: in-memory database/sql driver (SimDB) that parses, stores and replays rows, with seeded legal driver variation",
+   text="Seeded exploration of frames x dialects x driver behaviours: the statements and arguments recorded by SimDB must be one INSERT per row in frame order naming the configured table and all columns, identifiers wrapped in the escape rune, placeholders ? or $1..$n, arguments equal to the row (null string as NULL); ReadSQL of the stored rows (and of a variant with NULL floats and leading NULLs) must reproduce the frame, enum as string.",
+   note="Trusted: database/sql (real) above the driver; SimDB's strict INSERT grammar; identifiers restricted to an alphabet that cannot collide with the syntax."),
+ "C15": dict(engine="iofault", level="fault_enumeration", design="§3 C15",
+   technique="deterministic simulation with fault injection: exhaustive enumeration of fault positions and shapes per seeded input over simulated reader, writer and database driver",
+   text="For each seeded input every position at which the reader, writer or driver can start failing is executed (byte offsets incl. 'instead of EOF', every driver call incl. each Rows.Next), in both shapes ((0,err) and data-with-error / short write), with identity-sensitive error values at every position and a fresh fragmentation plan each time. Oracle: never a panic; fault fired => error reported; no error => result identical to the fault-free run / writer received the complete output. Exhaustive in the fault dimension per input, sampled over inputs.",
+   note="Trusted: the stubs obey the io and database/sql/driver contracts; a reference client decides whether database/sql surfaced a driver failure at all. Tx-context cancellation is excluded (not replayable)."),
 }
 
 PENDING = {'C01': 'not claimed yet: the engine for this property is still being built (planned as a deterministic-simulation check, see DESIGN.md §3); it will move to checks when it runs', 'C04': 'not claimed yet: the engine for this property is still being built (planned as a deterministic-simulation check, see DESIGN.md §3); it will move to checks when it runs', 'C05': 'not claimed yet: the engine for this property is still being built (planned as a deterministic-simulation check, see DESIGN.md §3); it will move to checks when it runs', 'C11': 'not claimed yet: the engine for this property is still being built (planned as a deterministic-simulation check, see DESIGN.md §3); it will move to checks when it runs', 'C13': 'not claimed yet: the engine for this property is still being built (planned as a deterministic-simulation check, see DESIGN.md §3); it will move to checks when it runs', 'C14': 'not claimed yet: the engine for this property is still being built (planned as a deterministic-simulation check, see DESIGN.md §3); it will move to checks when it runs', 'C15': 'not claimed yet: the engine for this property is still being built (planned as a deterministic-simulation check, see DESIGN.md §3); it will move to checks when it runs', 'C19': 'not claimed yet: the engine for this property is still being built (planned as a deterministic-simulation check, see DESIGN.md §3); it will move to checks when it runs'}
